@@ -4,6 +4,7 @@
 //! by a global sequence counter: transport messages (tap), API operations (start / return),
 //! results of `Client::run` / `Connection::run`, task outcomes.
 
+pub mod program;
 pub mod roles;
 
 use aldrin::{Client, Handle};
@@ -58,6 +59,7 @@ pub struct ClientInfo {
     pub conn_result: Shared<Option<String>>,
     pub fifo: Option<usize>,
     pub version: u32,
+    pub conn_handle: aldrin_broker::ConnectionHandle,
 }
 
 pub struct Bus {
@@ -98,9 +100,15 @@ impl Bus {
     /// Connects a real client over the repository's channel transport (`fifo = None`: unbounded).
     /// `fail_at`: fail the k-th completed transport operation of the client's end.
     pub fn add_client(&mut self, rng: &mut Rng, fifo: Option<usize>, fail_at: Option<u64>) -> Option<usize> {
+        self.add_client2(rng, fifo, fail_at, None)
+    }
+
+    /// As `add_client`; `fail_broker_end` fails the k-th transport operation of the broker's end.
+    pub fn add_client2(&mut self, rng: &mut Rng, fifo: Option<usize>, fail_at: Option<u64>, fail_broker_end: Option<u64>) -> Option<usize> {
         let i = self.clients.len();
         let (broker_end, client_end) = pair(fifo, format!("b{i}"), format!("c{i}"), Some(self.taps.clone()));
         let client_end = client_end.fail_at(fail_at);
+        let broker_end = broker_end.fail_at(fail_broker_end);
 
         let conn_slot: Shared<Option<Result<aldrin_broker::Connection<Tap>, String>>> = shared(None);
         let cs = conn_slot.clone();
@@ -127,6 +135,7 @@ impl Bus {
         match (conn, client) {
             (Some(Ok(conn)), Some(Ok(client))) => {
                 let handle = client.handle().clone();
+                let conn_handle = conn.handle().clone();
                 let run_result = shared(None);
                 let rr = run_result.clone();
                 let run_task = self.exec.spawn(format!("client{i}"), async move {
@@ -154,6 +163,7 @@ impl Bus {
                     conn_result,
                     fifo,
                     version: 20,
+                    conn_handle,
                 });
                 self.log.push(json!({"t": "client", "cl": i, "fifo": fifo.map(|x| x as i64).unwrap_or(-1)}));
                 Some(i)
@@ -215,7 +225,7 @@ impl Bus {
                 TaskState::Panicked(m) => format!("panic:{m}"),
                 TaskState::Dropped => "dropped".to_string(),
             };
-            log.push(json!({"t": "run", "cl": i, "client": st(c.run_task), "conn": st(c.conn_task),
+            log.push(json!({"t": "run", "cl": i, "strict": true, "client": st(c.run_task), "conn": st(c.conn_task),
                 "res": c.run_result.borrow().clone().unwrap_or_else(|| "none".into()),
                 "connRes": c.conn_result.borrow().clone().unwrap_or_else(|| "none".into())}));
         }
